@@ -2,11 +2,12 @@
 import types
 import ssm_common as S
 import iocb_common as I
+import ssm_c11c12 as X
 from core import Case
 from pyerr import canon_call
 
 PROP = 'C11'
-COQ_TARGETS = ['theories/SsmFacts.vo', 'theories/SsmC11.vo', 'theories/SsmC11s.vo', 'theories/SsmC11a.vo', 'theories/IocbFacts.vo']
+COQ_TARGETS = ['theories/SsmFacts.vo', 'theories/SsmC11.vo', 'theories/SsmC11s.vo', 'theories/SsmC11a.vo', 'theories/SsmC11p.vo', 'theories/IocbFacts.vo']
 COQ_IMPORTS = 'From Bac Require Import Base Iocb Ssm SsmWorld.'
 RULE = ('cases: 1..40 concurrent requests from one or two clients over 1..4 servers, application-chosen invoke ids colliding across '
         'peers (and within one peer: refused), answers delayed up to 4 s so that retransmissions meet a transaction still being '
@@ -15,7 +16,9 @@ RULE = ('cases: 1..40 concurrent requests from one or two clients over 1..4 serv
         'random live sets incl. 254..256 live ids; nodes that are client AND server towards each other with equal ids in both directions and '
         'late Aborts of both polarities; server applications that park answers and give them from inside a later indication to clients with equal ids; stations that differ only in network number or MAC length (1:5, 2:5, 05, 00:05) '
         'as clients of one server and as servers of one client; IOCB histories with three or more IOCBs queued to one peer and client aborts of waiting ones; > 512 requests to one peer with a run of live ids across 255 -> 0 when the cursor '
-        'comes round; client applications whose confirmation callback submits the next request at once with the same application-chosen id.  Compared: the whole canonical trace.  non-trivial = at least one frame, or an '
+        'comes round; client applications whose confirmation callback submits the next request at once with the same application-chosen id; nodes that are client and server towards each other with '
+        'equal ids while a protocol-violating PDU of the real peer (chosen by the state of the live client transaction it is aimed at, so that it cannot pass for the answer) makes that client give up with an '
+        'Abort on the wire, or - no client transaction live - a stray srv=1 Abort / SegmentAck / reply meets a server transaction with the same peer and id.  Compared: the whole canonical trace.  non-trivial = at least one frame, or an '
         'allocation with >= 1 live transaction; distinct by scenario.')
 TRUSTED = S.TRUSTED
 ASSUMPTIONS = S.ASSUMPTIONS
@@ -64,6 +67,8 @@ def cases(rng, tier):
         out.append(S.scenario_case(S.gen_bidirectional(rng), 'bidirectional'))
     for _ in range(300 if tier == 'thorough' else 40):
         out.append(S.scenario_case(S.gen_park_flush(rng), 'parked-answers'))
+    for _ in range(600 if tier == 'thorough' else 60):
+        out.append(S.scenario_case(X.gen_client_abort(rng), 'client-gives-up-on-the-wire'))
     out += alloc_cases(rng, 3000 if tier == 'thorough' else 300)
     for _ in range(600 if tier == 'thorough' else 40):
         out.append(S.scenario_case(S.gen_same_mac(rng), 'same-mac-stations'))
@@ -88,8 +93,9 @@ def direct(rng, tier, focus=()):
             ('parked-answers', lambda r: S.gen_park_flush(r), 4000 if big else 400),
             ('transaction', lambda r: S.gen_transaction(r), 8000 if big else 800)]
     fams.append(('same-mac-stations', lambda r: S.gen_same_mac(r), 6000 if big else 600))
-    failures, stats = S.direct_families(rng, fams, S.check_c11, focus)
-    failures.extend(S.known_replays('C11', S.check_c11))
+    fams.append(('client-gives-up-on-the-wire', lambda r: X.gen_client_abort(r), 8000 if big else 800))
+    failures, stats = S.direct_families(rng, fams, X.check_c11x, focus)
+    failures.extend(S.known_replays('C11', X.check_c11x))
     # replies are paired with the IOCB whose request they answer (per-peer queue of ApplicationIOController)
     nh = 0
     for _ in range(15000 if big else 1500):
@@ -119,4 +125,4 @@ def replay(payload):
     if (payload.get('failure') or {}).get('ops'):
         import props.c04 as c04
         return c04.replay(payload)
-    S.replay_generic(payload, S.check_c11, 'C11')
+    S.replay_generic(payload, X.check_c11x, 'C11')
